@@ -216,6 +216,90 @@ theorem decStr_inj (a b : Nat) (h : decStr a = decStr b) : a = b := by
   rw [h, hb] at ha
   simpa using ha.symm
 
+/-! ### canonical decimals: a digit string without leading zero is the rendering of its value -/
+
+/-- what the parsing loop accepts is a string of decimal digits, and it is the fixed-width rendering
+    of the value it contributes -/
+theorem decValAux_digits (s : Bytes) (acc n : Nat) (h : decValAux acc s = some n) :
+    ∃ v, v < 10 ^ s.length ∧ n = acc * 10 ^ s.length + v ∧ s = decN s.length v := by
+  induction s generalizing acc n with
+  | nil =>
+    simp only [decValAux, Option.some.injEq] at h
+    exact ⟨0, by simp, by simp [h], rfl⟩
+  | cons c cs ih =>
+    simp only [decValAux] at h
+    split at h
+    · rename_i hc
+      obtain ⟨v', hv', hn, hs⟩ := ih _ _ h
+      have hp := pow10_pos cs.length
+      have h9 : c - 48 ≤ 9 := by omega
+      refine ⟨(c - 48) * 10 ^ cs.length + v', ?_, ?_, ?_⟩
+      · simp only [List.length_cons, Nat.pow_succ]
+        have := Nat.mul_le_mul_right (10 ^ cs.length) h9
+        omega
+      · simp only [List.length_cons, Nat.pow_succ]
+        rw [hn, Nat.add_mul, Nat.mul_assoc, Nat.mul_comm 10 (10 ^ cs.length)]; omega
+      · have e1 : ((c - 48) * 10 ^ cs.length + v') / 10 ^ cs.length = c - 48 := by
+          rw [Nat.add_comm, Nat.add_mul_div_right _ _ hp, Nat.div_eq_of_lt hv']; simp
+        have e2 : ((c - 48) * 10 ^ cs.length + v') % 10 ^ cs.length = v' := by
+          rw [Nat.add_comm, Nat.add_mul_mod_self_right, Nat.mod_eq_of_lt hv']
+        simp only [List.length_cons, decN]
+        rw [e1, e2, Nat.mod_eq_of_lt (by omega), ← hs]
+        congr 1; omega
+    · simp at h
+
+theorem numDigits_lt10 (n : Nat) (h : n < 10) : numDigits n = 1 := by
+  unfold numDigits
+  cases n with
+  | zero => rfl
+  | succ m => simp only [numDigitsAux]; rw [if_pos h]
+
+/-- the digit count is determined by the decade the number lies in -/
+theorem numDigits_of_decade (k n : Nat) (hlo : 10 ^ k ≤ n) (hhi : n < 10 ^ (k + 1)) : numDigits n = k + 1 := by
+  by_cases h10 : n < 10
+  · have hk : k = 0 := by
+      cases k with
+      | zero => rfl
+      | succ k =>
+        have : 10 ^ 1 ≤ 10 ^ (k + 1) := Nat.pow_le_pow_right (by decide) (by omega)
+        omega
+    rw [numDigits_lt10 n h10, hk]
+  · have hup := lt_pow_numDigits n
+    have hlow := numDigitsAux_lower n n (Nat.le_refl n) (by omega)
+    have hpos := numDigitsAux_pos n n
+    change 10 ^ (numDigits n - 1) ≤ n at hlow
+    change 1 ≤ numDigits n at hpos
+    by_cases c1 : numDigits n ≤ k
+    · have : 10 ^ numDigits n ≤ 10 ^ k := Nat.pow_le_pow_right (by decide) c1
+      omega
+    · by_cases c2 : k + 2 ≤ numDigits n
+      · have : 10 ^ (k + 1) ≤ 10 ^ (numDigits n - 1) := Nat.pow_le_pow_right (by decide) (by omega)
+        omega
+      · omega
+
+/-- a non-empty digit string without a leading '0' is the canonical rendering of the value it parses to -/
+theorem digits_canonical (s : Bytes) (n : Nat) (hlead : ∀ c cs, s = c :: cs → c ≠ 48)
+    (hne : s ≠ []) (h : decValAux 0 s = some n) : s = decStr n := by
+  obtain ⟨v, hv, hn, hs⟩ := decValAux_digits s 0 n h
+  have hnv : n = v := by omega
+  subst hnv
+  cases s with
+  | nil => exact absurd rfl hne
+  | cons c cs =>
+    have hc := hlead c cs rfl
+    simp only [List.length_cons] at hs hv
+    have hhead : c = 48 + n / 10 ^ cs.length % 10 := by
+      have := hs; simp only [decN, List.cons.injEq] at this; exact this.1
+    have hp := pow10_pos cs.length
+    have hlo : 10 ^ cs.length ≤ n := by
+      cases hq : n / 10 ^ cs.length with
+      | zero => rw [hq] at hhead; simp at hhead; exact absurd hhead hc
+      | succ q =>
+        have := (Nat.le_div_iff_mul_le hp).1 (by omega : 1 ≤ n / 10 ^ cs.length)
+        omega
+    rw [decStr, numDigits_of_decade cs.length n hlo hv]
+    exact hs
+
 /-! ### byte order helpers -/
 
 /-- for equal-length heads the order of `u ++ s` vs `v ++ t` is decided by the heads, then the tails -/
